@@ -152,3 +152,251 @@ Proof.
   set (i1 := _ && _). set (i2 := _ && _). set (i3 := _ && _). set (i4 := _ && _).
   destruct i1, i2, i3, i4; reflexivity.
 Qed.
+
+(* ------------------------------------------------------------------ the test ray against one edge *)
+
+Lemma wavg_bounds k u v ax bx : 0 < k -> 0 <= u -> 0 <= v -> 0 < u + v ->
+  Z.min ax bx * (k * (u + v)) <= k * (ax * v + bx * u) <= Z.max ax bx * (k * (u + v)).
+Proof.
+  intros Hk Hu Hv Huv.
+  assert (0 <= k * u) by (apply Z.mul_nonneg_nonneg; lia).
+  assert (0 <= k * v) by (apply Z.mul_nonneg_nonneg; lia).
+  destruct (Z.le_ge_cases ax bx) as [L|L].
+  - rewrite Z.min_l, Z.max_r by lia.
+    assert (0 <= (bx - ax) * (k * u)) by (apply Z.mul_nonneg_nonneg; lia).
+    assert (0 <= (bx - ax) * (k * v)) by (apply Z.mul_nonneg_nonneg; lia).
+    lia.
+  - rewrite Z.min_r, Z.max_l by lia.
+    assert (0 <= (ax - bx) * (k * u)) by (apply Z.mul_nonneg_nonneg; lia).
+    assert (0 <= (ax - bx) * (k * v)) by (apply Z.mul_nonneg_nonneg; lia).
+    lia.
+Qed.
+
+Lemma core_ray_up w qx qy ax ay bx by_ : w < qx -> w < ax -> w < bx -> ay < by_ ->
+  let c := cross (ax, ay) (bx, by_) (qx, qy) in
+  match fli_core (w, qy) (qx, qy) (ax, ay) (bx, by_) with
+  | None => ~ (ay <= qy <= by_) \/ 0 < c
+  | Some (xn, yn, dv, flag) =>
+      ay <= qy <= by_ /\ c <= 0 /\
+      ((xn =? qx * dv) && (yn =? qy * dv)) = (c =? 0) /\
+      flag = ((c =? 0) || (ay =? qy) || (by_ =? qy))
+  end.
+Proof.
+  intros Hq Ha Hb Hab c.
+  unfold fli_core. cbn [px py fst snd]. unfold det2, bounds_overlap. cbn [px py fst snd].
+  set (k := qx - w). set (u := qy - ay). set (v := by_ - qy).
+  assert (Hk : 0 < k) by (unfold k; lia).
+  assert (Hc : c = bx * u + ax * v - qx * (u + v)) by (unfold c, cross, u, v; cbn [px py fst snd]; ring).
+  replace ((w - qx) * (ay - by_) - (ax - bx) * (qy - qy)) with (k * (u + v)) by (unfold k, u, v; ring).
+  replace ((w * qy - qy * qx) * (ax - bx) - (ax * by_ - ay * bx) * (w - qx)) with (k * (ax * v + bx * u))
+    by (unfold k, u, v; ring).
+  replace ((w * qy - qy * qx) * (ay - by_) - (ax * by_ - ay * bx) * (qy - qy)) with (qy * (k * (u + v)))
+    by (unfold k, u, v; ring).
+  assert (Huv : 0 < u + v) by (unfold u, v; lia).
+  assert (Hdv : 0 < k * (u + v)) by (apply Z.mul_pos_pos; lia).
+  unfold sgn_fix. replace (k * (u + v) <? 0) with false by lia.
+  rewrite Z.abs_eq by lia.
+  set (dv := k * (u + v)) in *.
+  assert (Hxc : k * (ax * v + bx * u) - qx * dv = k * c) by (rewrite Hc; unfold dv; ring).
+  set (xn := k * (ax * v + bx * u)) in *.
+  rewrite !Z.min_id, !Z.max_id.
+  rewrite (Z.min_l w qx), (Z.max_r w qx), (Z.min_l ay by_), (Z.max_r ay by_) by lia.
+  assert (Hya : ay * dv <= qy * dv <-> 0 <= u).
+  { unfold u. split; intros. - assert (ay <= qy) by (apply (Z.mul_le_mono_pos_r _ _ dv); lia). lia.
+    - apply Z.mul_le_mono_nonneg_r; lia. }
+  assert (Hyb : qy * dv <= by_ * dv <-> 0 <= v).
+  { unfold v. split; intros. - assert (qy <= by_) by (apply (Z.mul_le_mono_pos_r _ _ dv); lia). lia.
+    - apply Z.mul_le_mono_nonneg_r; lia. }
+  assert (Hya' : qy * dv = ay * dv <-> u = 0).
+  { unfold u. split; intros. - assert (qy = ay) by (apply (Z.mul_reg_r _ _ dv); lia). lia.
+    - replace qy with ay by lia. reflexivity. }
+  assert (Hyb' : qy * dv = by_ * dv <-> v = 0).
+  { unfold v. split; intros. - assert (qy = by_) by (apply (Z.mul_reg_r _ _ dv); lia). lia.
+    - replace qy with by_ by lia. reflexivity. }
+  assert (Hxa : u = 0 -> xn = ax * dv) by (intros E; unfold xn, dv; rewrite E; ring).
+  assert (Hxb : v = 0 -> xn = bx * dv) by (intros E; unfold xn, dv; rewrite E; ring).
+  assert (Hsgn : (0 < c -> 0 < k * c) /\ (c < 0 -> k * c < 0) /\ (c = 0 -> k * c = 0)).
+  { repeat split; intros. - apply Z.mul_pos_pos; lia. - apply Z.mul_pos_neg; lia. - subst c. lia. }
+  assert (Hw : 0 <= u -> 0 <= v -> Z.min ax bx * dv <= xn <= Z.max ax bx * dv).
+  { intros. apply wavg_bounds; lia. }
+  assert (Hwm : w * dv < Z.min ax bx * dv) by (apply Z.mul_lt_mono_pos_r; lia).
+  assert (Hmq : 0 <= u -> 0 <= v -> Z.min ax bx <= qx \/ 0 < c).
+  { intros. destruct (Z.lt_ge_cases 0 c); [right; assumption|left].
+    assert (k * c <= 0) by (destruct (Z.eq_dec c 0); [lia|]; assert (k * c < 0) by (apply Hsgn; lia); lia).
+    assert (Z.min ax bx * dv <= qx * dv) by lia.
+    apply (Z.mul_le_mono_pos_r _ _ dv); lia. }
+  clearbody xn dv c k. unfold u, v in *. clear u v.
+  destruct (negb _) eqn:E1; [lia|].
+  destruct (dv =? 0) eqn:E2; [lia|].
+  match goal with |- context [if ?b then Some _ else None] => destruct b eqn:E3 end.
+  - repeat split; try lia.
+  - lia.
+Qed.
+
+Lemma core_ray w p a b : w < px p -> w < px a -> w < px b ->
+  let c := cross a b p in
+  match fli_core (w, py p) p a b with
+  | None => py a = py b \/ ~ (Z.min (py a) (py b) <= py p <= Z.max (py a) (py b)) \/
+            0 < c * (py b - py a)
+  | Some (xn, yn, dv, flag) =>
+      py a <> py b /\ Z.min (py a) (py b) <= py p <= Z.max (py a) (py b) /\
+      c * (py b - py a) <= 0 /\
+      ((xn =? px p * dv) && (yn =? py p * dv)) = (c =? 0) /\
+      flag = ((c =? 0) || (py a =? py p) || (py b =? py p))
+  end.
+Proof.
+  destruct p as [qx qy], a as [ax ay], b as [bx by_]. cbn [px py fst snd]. intros Hq Ha Hb. set (c := cross (ax, ay) (bx, by_) (qx, qy)).
+  destruct (Z.lt_trichotomy ay by_) as [L|[L|L]].
+  - pose proof (core_ray_up w qx qy ax ay bx by_ Hq Ha Hb L) as H. cbv zeta in H. fold c in H.
+    destruct (fli_core _ _ _ _) as [[[[xn yn] dv] flag]|].
+    + destruct H as (H1 & H2 & H3 & H4).
+      assert (c * (by_ - ay) <= 0) by (apply Z.mul_nonpos_nonneg; lia).
+      repeat split; try lia; assumption.
+    + destruct H as [H|H]; [right; left; lia|right; right; apply Z.mul_pos_pos; lia].
+  - subst by_. unfold fli_core. cbn [px py fst snd]. destruct (negb _); [left; reflexivity|].
+    replace ((w - qx) * (ay - ay) - (ax - bx) * (qy - qy)) with 0 by ring.
+    cbn [Z.eqb]. left; reflexivity.
+  - rewrite <- core_swap2.
+    pose proof (core_ray_up w qx qy bx by_ ax ay Hq Hb Ha L) as H. cbv zeta in H.
+    assert (Ec : cross (bx, by_) (ax, ay) (qx, qy) = - c) by (unfold c, cross; cbn [px py fst snd]; ring).
+    rewrite Ec in H.
+    destruct (fli_core _ _ _ _) as [[[[xn yn] dv] flag]|].
+    + destruct H as (H1 & H2 & H3 & H4).
+      assert (c * (by_ - ay) <= 0) by (apply Z.mul_nonneg_nonpos; lia).
+      split; [lia|]. split; [lia|]. split; [assumption|]. split.
+      * rewrite H3. lia.
+      * rewrite H4. destruct (- c =? 0) eqn:?, (c =? 0) eqn:?, (by_ =? qy), (ay =? qy); try reflexivity; lia.
+    + destruct H as [H|H]; [right; left; lia|right; right; apply Z.mul_neg_neg; lia].
+Qed.
+
+Lemma on_line_x p a b : cross a b p = 0 -> py a <> py b ->
+  Z.min (py a) (py b) <= py p <= Z.max (py a) (py b) ->
+  Z.min (px a) (px b) <= px p <= Z.max (px a) (px b).
+Proof.
+  destruct p as [qx qy], a as [ax ay], b as [bx by_]. unfold cross. cbn [px py fst snd].
+  intros Hc Hne Hy.
+  assert (E1 : (by_ - ay) * (qx - ax) = (bx - ax) * (qy - ay)) by lia.
+  assert (E2 : (by_ - ay) * (bx - qx) = (bx - ax) * (by_ - qy)) by lia.
+  destruct (Z.lt_ge_cases ay by_) as [L|L]; destruct (Z.le_ge_cases ax bx) as [M|M].
+  - assert (0 <= (bx - ax) * (qy - ay)) by (apply Z.mul_nonneg_nonneg; lia).
+    assert (0 <= (bx - ax) * (by_ - qy)) by (apply Z.mul_nonneg_nonneg; lia).
+    assert (0 <= qx - ax) by (apply (Z.mul_le_mono_pos_l _ _ (by_ - ay)); lia).
+    assert (0 <= bx - qx) by (apply (Z.mul_le_mono_pos_l _ _ (by_ - ay)); lia).
+    lia.
+  - assert ((bx - ax) * (qy - ay) <= 0) by (apply Z.mul_nonpos_nonneg; lia).
+    assert ((bx - ax) * (by_ - qy) <= 0) by (apply Z.mul_nonpos_nonneg; lia).
+    assert (qx - ax <= 0) by (apply (Z.mul_le_mono_pos_l _ _ (by_ - ay)); lia).
+    assert (bx - qx <= 0) by (apply (Z.mul_le_mono_pos_l _ _ (by_ - ay)); lia).
+    lia.
+  - assert ((bx - ax) * (qy - ay) <= 0) by (apply Z.mul_nonneg_nonpos; lia).
+    assert ((bx - ax) * (by_ - qy) <= 0) by (apply Z.mul_nonneg_nonpos; lia).
+    assert (0 <= qx - ax) by (apply (Z.mul_le_mono_neg_l _ _ (by_ - ay)); lia).
+    assert (0 <= bx - qx) by (apply (Z.mul_le_mono_neg_l _ _ (by_ - ay)); lia).
+    lia.
+  - assert (0 <= (bx - ax) * (qy - ay)) by (apply Z.mul_nonpos_nonpos; lia).
+    assert (0 <= (bx - ax) * (by_ - qy)) by (apply Z.mul_nonpos_nonpos; lia).
+    assert (qx - ax <= 0) by (apply (Z.mul_le_mono_neg_l _ _ (by_ - ay)); lia).
+    assert (bx - qx <= 0) by (apply (Z.mul_le_mono_neg_l _ _ (by_ - ay)); lia).
+    lia.
+Qed.
+
+Lemma straddles_cases p a b : straddles p a b = true <->
+  (py a <= py p < py b) \/ (py b <= py p < py a).
+Proof. unfold straddles. destruct (py p <? py a) eqn:?, (py p <? py b) eqn:?; cbn; lia. Qed.
+
+(* a straddling edge strictly east of p crosses the line east of p *)
+Lemma west_side_pos p a b : px p < px a -> px p < px b -> straddles p a b = true ->
+  0 < cross a b p * (py b - py a).
+Proof.
+  rewrite straddles_cases.
+  destruct p as [qx qy], a as [ax ay], b as [bx by_]. unfold cross. cbn [px py fst snd].
+  intros Ha Hb H.
+  replace ((bx - ax) * (qy - ay) - (by_ - ay) * (qx - ax))
+    with ((bx - qx) * (qy - ay) + (ax - qx) * (by_ - qy)) by ring.
+  destruct H as [H|H].
+  - assert (0 <= (bx - qx) * (qy - ay)) by (apply Z.mul_nonneg_nonneg; lia).
+    assert (0 < (ax - qx) * (by_ - qy)) by (apply Z.mul_pos_pos; lia).
+    apply Z.mul_pos_pos; lia.
+  - assert ((bx - qx) * (qy - ay) < 0) by (apply Z.mul_pos_neg; lia).
+    assert ((ax - qx) * (by_ - qy) <= 0) by (apply Z.mul_nonneg_nonpos; lia).
+    apply Z.mul_neg_neg; lia.
+Qed.
+
+Lemma east_side_neg p a b : px a < px p -> px b < px p -> straddles p a b = true ->
+  cross a b p * (py b - py a) < 0.
+Proof.
+  rewrite straddles_cases.
+  destruct p as [qx qy], a as [ax ay], b as [bx by_]. unfold cross. cbn [px py fst snd].
+  intros Ha Hb H.
+  replace ((bx - ax) * (qy - ay) - (by_ - ay) * (qx - ax))
+    with ((bx - qx) * (qy - ay) + (ax - qx) * (by_ - qy)) by ring.
+  destruct H as [H|H].
+  - assert ((bx - qx) * (qy - ay) <= 0) by (apply Z.mul_nonpos_nonneg; lia).
+    assert ((ax - qx) * (by_ - qy) < 0) by (apply Z.mul_neg_pos; lia).
+    apply Z.mul_neg_pos; lia.
+  - assert (0 < (bx - qx) * (qy - ay)) by (apply Z.mul_neg_neg; lia).
+    assert (0 <= (ax - qx) * (by_ - qy)) by (apply Z.mul_nonpos_nonpos; lia).
+    apply Z.mul_pos_neg; lia.
+Qed.
+
+Lemma fliZ_ray_lt w p a b : w < px p -> fliZ (p, (w, py p)) (a, b) = fli_core (w, py p) p a b.
+Proof.
+  intros H. unfold fliZ, ordx. cbn [px py fst snd].
+  replace (w <? px p) with true by lia.
+  destruct (px b <? px a); [apply core_swap2|reflexivity].
+Qed.
+
+Lemma fliZ_ray_eq p a b : px p < px a -> px p < px b -> fliZ (p, (px p, py p)) (a, b) = None.
+Proof.
+  intros Ha Hb. unfold fliZ, ordx. cbn [px py fst snd].
+  replace (px p <? px p) with false by lia.
+  destruct (px b <? px a); unfold fli_core, bounds_overlap; cbn [px py fst snd];
+    match goal with |- (if negb (?x && _) then _ else _) = _ => replace x with false by lia end;
+    reflexivity.
+Qed.
+
+Lemma estep_geo w p a b : w <= px p -> w < px a -> w < px b ->
+  estep w p (a, b) = if on_segb p a b then None else Some (west_z p (a, b)).
+Proof.
+  intros Hp Ha Hb. unfold estep.
+  destruct ((py a =? py b) && (py b =? py p) && (Z.min (px a) (px b) <=? px p) &&
+            (px p <=? Z.max (px a) (px b))) eqn:Eh.
+  { replace (on_segb p a b) with true; [reflexivity|]. symmetry. apply on_segb_spec.
+    unfold on_seg, cross. assert (py a = py b) by lia. assert (py b = py p) by lia.
+    replace (py p - py a) with 0 by lia. replace (py b - py a) with 0 by lia. lia. }
+  destruct (Z.eq_dec w (px p)) as [->|Hne].
+  - rewrite fliZ_ray_eq by assumption.
+    replace (on_segb p a b) with false by (unfold on_segb; lia).
+    f_equal. unfold west_z. destruct (straddles p a b) eqn:Es; [|reflexivity].
+    pose proof (west_side_pos p a b Ha Hb Es). cbn [andb]. lia.
+  - rewrite fliZ_ray_lt by lia.
+    pose proof (core_ray w p a b ltac:(lia) Ha Hb) as H.
+    set (c := cross a b p) in *.
+    pose proof (straddles_cases p a b) as Hs.
+    assert (Hol : c = 0 -> py a <> py b ->
+                  Z.min (py a) (py b) <= py p <= Z.max (py a) (py b) ->
+                  Z.min (px a) (px b) <= px p <= Z.max (px a) (px b))
+      by (apply on_line_x).
+    assert (Hz : c * (py b - py a) = 0 -> c = 0 \/ py b - py a = 0) by (apply Z.mul_eq_0).
+    assert (Hz0 : c = 0 -> c * (py b - py a) = 0) by (intros ->; reflexivity).
+    unfold west_z, on_segb. fold c.
+    destruct (fli_core _ _ _ _) as [[[[xn yn] dv] flag]|].
+    + destruct H as (H1 & H2 & H3 & H4 & H5). rewrite H4, H5.
+      clearbody c.
+      destruct (c =? 0) eqn:Ec.
+      * cbn [orb]. replace (_ && _) with true by lia. reflexivity.
+      * cbn [orb andb].
+        destruct ((py a =? py p) || (py b =? py p)) eqn:Ef.
+        -- destruct (Z.max (py a) (py b) <=? py p) eqn:Em; f_equal.
+           ++ destruct (straddles p a b); [exfalso; destruct (proj1 Hs eq_refl); lia|reflexivity].
+           ++ destruct (straddles p a b); [cbn [andb]; lia|].
+              exfalso.
+              assert (false = true) by (apply Hs; lia). discriminate.
+        -- f_equal. destruct (straddles p a b); [cbn [andb]; lia|].
+           exfalso. assert (false = true) by (apply Hs; lia). discriminate.
+    + clearbody c.
+      destruct ((c =? 0) && _ && _ && _ && _) eqn:Eo.
+      * exfalso. destruct H as [H|[H|H]]; lia.
+      * f_equal. destruct (straddles p a b); [|reflexivity]. cbn [andb].
+        destruct (proj1 Hs eq_refl); destruct H as [H|[H|H]]; lia.
+Qed.
